@@ -40,6 +40,8 @@ def check(ctx):
   _c03.find_node(ctx, 'C04.R4')
   ctx.rule('C03.R5', 'shared with C03: the sifts move nodes by Swap only and keep Node.index equal to the slot (removal and release address a node by its index: a stale index evicts a different, live member and leaves the departed one in the heap)')
   _c03.r5(ctx)
+  ctx.rule('C03.R2', 'shared with C03: the down-queue walk unlinks a removed / recovered member with its live predecessor (through a dead predecessor the queue head keeps pointing at a recovered member: its penalty is subtracted again on the next dispatch and its load falls far below zero)')
+  _c03.r2(ctx)
 
 
 def r1_r2(ctx):
